@@ -1,0 +1,115 @@
+//go:build verif
+
+// Add-only observation hooks for the /verif property C17 (parallel estimation is
+// schedule independent).  Nothing here is called by the library itself.
+
+package generic
+
+/* -------------------------------------------------------------------------- */
+
+import . "github.com/pbenner/autodiff"
+
+/* -------------------------------------------------------------------------- */
+
+// Per-thread accumulator snapshot of a BaumWelchTmp / EmTmp entry.
+type VerifC17ThreadSnap struct {
+  Init         bool
+  Likelihood   float64
+  Pi         []float64
+  Tr       [][]float64
+  Gamma    [][]float64
+  LogWeights []float64
+}
+
+func verifC17Vector(v DenseFloat64Vector) []float64 {
+  if v == nil {
+    return nil
+  }
+  r := make([]float64, len(v))
+  for i := 0; i < len(v); i++ {
+    r[i] = float64(v[i])
+  }
+  return r
+}
+
+func verifC17Matrix(m *DenseFloat64Matrix) [][]float64 {
+  if m == nil {
+    return nil
+  }
+  n1, n2 := m.Dims()
+  r := make([][]float64, n1)
+  for i := 0; i < n1; i++ {
+    r[i] = make([]float64, n2)
+    for j := 0; j < n2; j++ {
+      r[i][j] = m.Float64At(i, j)
+    }
+  }
+  return r
+}
+
+func verifC17Gamma(g []DenseFloat64Vector) [][]float64 {
+  if g == nil {
+    return nil
+  }
+  r := make([][]float64, len(g))
+  for i := 0; i < len(g); i++ {
+    r[i] = verifC17Vector(g[i])
+  }
+  return r
+}
+
+// Snapshot of the per-thread accumulators (read only).
+func VerifC17BaumWelchSnap(tmp []BaumWelchTmp) []VerifC17ThreadSnap {
+  r := make([]VerifC17ThreadSnap, len(tmp))
+  for t := 0; t < len(tmp); t++ {
+    r[t].Init       = tmp[t].init
+    r[t].Likelihood = tmp[t].likelihood
+    r[t].Pi         = verifC17Vector(tmp[t].pi)
+    r[t].Tr         = verifC17Matrix(tmp[t].tr)
+    r[t].Gamma      = verifC17Gamma (tmp[t].gamma)
+  }
+  return r
+}
+
+func VerifC17EmSnap(tmp []EmTmp) []VerifC17ThreadSnap {
+  r := make([]VerifC17ThreadSnap, len(tmp))
+  for t := 0; t < len(tmp); t++ {
+    r[t].Init       = tmp[t].init
+    r[t].Likelihood = tmp[t].likelihood
+    r[t].Gamma      = verifC17Gamma (tmp[t].gamma)
+    r[t].LogWeights = verifC17Vector(tmp[t].logWeights)
+  }
+  return r
+}
+
+// Fill every per-thread accumulator with the stale value v and set the init
+// flag to `flag': the state an earlier step with a different schedule may
+// have left behind.  The steps must not depend on it.
+func VerifC17BaumWelchStale(tmp []BaumWelchTmp, v float64, flag bool) {
+  for t := 0; t < len(tmp); t++ {
+    tmp[t].init       = flag
+    tmp[t].likelihood = v
+    for i := 0; i < len(tmp[t].pi); i++ {
+      tmp[t].pi[i] = v
+    }
+    if tmp[t].tr != nil {
+      tmp[t].tr.Map(func(x Scalar) { x.SetFloat64(v) })
+    }
+    for c := 0; c < len(tmp[t].gamma); c++ {
+      tmp[t].gamma[c].Map(func(x Scalar) { x.SetFloat64(v) })
+    }
+  }
+}
+
+func VerifC17EmStale(tmp []EmTmp, v float64, flag bool) {
+  for t := 0; t < len(tmp); t++ {
+    tmp[t].init       = flag
+    tmp[t].likelihood = v
+    if tmp[t].logWeights != nil {
+      tmp[t].logWeights.Map(func(x Scalar) { x.SetFloat64(v) })
+    }
+    for c := 0; c < len(tmp[t].gamma); c++ {
+      tmp[t].gamma[c].Map(func(x Scalar) { x.SetFloat64(v) })
+    }
+  }
+}
